@@ -91,6 +91,71 @@ CHECKS["C16"] = (
     "DESIGN.md §5 C16",
 )
 
+CHECKS["C05"] = (
+    "invariant monitor relating returned metadata to the emitted source: independent scan of declarations/annotations and of call-graph reachability",
+    "For thousands of generated resource/pipeline programs (plus corpus and unit-test snippets) x 4 targets x {no pipeline, all, each named "
+    "pipeline}, every metadata binding is matched against the register / vk::binding / [[id(n)]] annotation, declared type, array length "
+    "and bindless attribute of the declaration of that name in the emitted tree and text; stages must name a defined function with the "
+    "reported thread-group size; is_used is compared with an independent reachability walk.",
+    "Reachability is syntactic (certain / possible sets; undecided bindings are skipped). HLSL reports every binding used, so only 'reachable => used' is tested there.",
+    "DESIGN.md §5 C05",
+)
+CHECKS["C07"] = (
+    "differential monitor over repeated executions: 8 fresh threads + 3 child processes per input and target (fresh HashMap seeds)",
+    "Each input of a workload built to put >= 4 elements into every hash-ordered container (name scopes, usage sets, implicit Metal "
+    "parameters, inline constant blocks, argument buffers, include graphs) is compiled 11 times per target; sources, metadata, stages, "
+    "pipeline state and diagnostics must be byte identical. A run whose container sizes stay small is inconclusive.",
+    "An unsorted iteration over k >= 4 elements escapes 11 runs with probability < (1/24)^10. One defensive sort (argument buffer) is an equivalent mutant and cannot be observed.",
+    "DESIGN.md §5 C07",
+)
+CHECKS["C09"] = (
+    "differential monitor: print -> parse -> structural tree comparison (astcmp) over enumerated and random syntax trees, exporter trees and parser trees",
+    "All (outer slot, inner operator) pairs, all unary/cast/postfix chains of depth 3 and (thorough) all 316k depth-3 nestings are enumerated, "
+    "plus random expressions to depth 6, statements, declarations and literal sweeps, printed for the Rssl/Hlsl/Msl targets and read back; "
+    "the exporters' own trees for the corpus and ~5700 parser-produced definitions are round-tripped too.",
+    "Uses rssl's parser to read the text back; one recorded finding (template-call reading of `a < b > (c)`) is tolerated by a line-shape signature.",
+    "DESIGN.md §5 C09",
+)
+CHECKS["C10"] = (
+    "reference-model monitor: span tiling invariant, exact literal reference (big-integer decimal conversion) and output-value monitor",
+    "640k (quick) / 8M (thorough) generated cases: texts over every token kind with trivia and both line endings must tile exactly and "
+    "unlex back; integer spellings to 25 digits and float spellings to 20 significant digits / exponents -330..310 must produce exactly the "
+    "reference value (or be rejected when >= 2^64); literals placed in programs must print a literal denoting the same value.",
+    "Rust's float parser is cross-checked by an independent big-integer conversion on every generated float. Output leg: scalar contexts, DirectX only.",
+    "DESIGN.md §5 C10",
+)
+CHECKS["C12"] = (
+    "reference-model monitor: independent C99 6.10.3 macro expander (two rescanning models side by side) and textual-paste include model vs. the preprocessor's token stream",
+    "60k macro programs, 20k include graphs and all splits of define lists between compile() arguments and #define lines per quick run: the "
+    "token stream after preprocessing must equal the reference wherever the two reference models agree; API defines must behave like #define lines.",
+    "Regions where C is unspecified or rssl documents its own behaviour are answered 'undecided' and skipped (counted).",
+    "DESIGN.md §5 C12",
+)
+CHECKS["C13"] = (
+    "reference-model monitor: independent constant evaluator vs. values observed in seven constant-demanding positions (assert_eval, static const, array size, enum value, case label, template argument, numthreads)",
+    "The complete operator x boundary-operand table (70k cases quick, 167k thorough) and random constant trees to depth 5 are placed in the "
+    "positions that demand a constant; the folded value must equal the reference (wrapping 32-bit int/uint, exact literals, masked shifts), "
+    "division by zero must be 'not constant', nothing may panic.",
+    "Cases HLSL leaves undefined (INT_MIN / -1, out-of-range float->int, half precision) have no reference value and are only required not to panic.",
+    "DESIGN.md §5 C13",
+)
+CHECKS["C14"] = (
+    "differential monitor: trivia insertion at token boundaries (own lexer) and line-shift tracking of diagnostics",
+    "Thousands of base programs (unit-test snippets, tests/basic, generated macro/include programs) x trivia variants must give the same "
+    "verdict and payload; programs with one injected error (28 kinds, also inside included files) x k in 0..50 inserted lines must report "
+    "the same message, file and column with the line moved by exactly k.",
+    "Token boundaries come from the harness's own conservative lexer (unsure runs are merged, so some boundaries are never exercised).",
+    "DESIGN.md §5 C14",
+)
+CHECKS["C17"] = (
+    "differential monitor: whole file vs. by name vs. file with the other pipelines blanked, per target",
+    "Generated files with 0-4 pipelines (compute, vertex+pixel, mesh+pixel, task+mesh+pixel) sharing entry points, helpers, globals and "
+    "resources are compiled in all modes on 4 targets: result count and order, equality of everything observable between All / Named / "
+    "alone, clean errors for unknown names and pipeline-less files, exactly one result in no-pipeline mode.",
+    "Backend rejections (e.g. mesh intrinsics on Metal) are compared as outcomes, not excluded.",
+    "DESIGN.md §5 C17",
+)
+
 NOT_YET = {}
 
 def main():
